@@ -338,10 +338,20 @@ Definition lang_kind_of (l : key) : lang_kind :=
    there.  detach = Gen_C13.create_detaches_config: false = that configuration IS the builder's object, true = it is a
    deep copy taken after the merge.
    Result: (builder afterwards, sections the new context holds, Some options of the target language | None = create raised). *)
+Fixpoint strip_markers (v : cv) : cv :=
+  match v with
+  | Leaf _ a => Leaf false a
+  | Node m => Node (map (fun kv => (fst kv, strip_markers (snd kv))) m)
+  end.
+
+(* `_strip_default_markers` on the sections of the context's copy (Gen_C13.create_strips_default_markers: is it there?) *)
+Definition strip_sections (s : list (key * cv)) : list (key * cv) := map (fun kv => (fst kv, strip_markers (snd kv))) s.
+
 Definition bcreate_st (detach : bool) (b : builder) : builder * option (list (key * cv)) * option (list (key * cv)) :=
   match bcreate b, resolve_language b with
   | Some s, Some l =>
-      let '(o, s') := language_init (lang_kind_of l) s (section_of l) in
+      let sc := if detach && create_strips_default_markers then strip_sections s else s in   (* the context's copy *)
+      let '(o, s') := language_init (lang_kind_of l) sc (section_of l) in
       ({| b_sections := Some (if detach then s else s'); b_lang := b_lang b; b_over := b_over b |}, Some s', o)
   | _, _ => (b, None, None)
   end.
